@@ -64,13 +64,13 @@ structure Defects where
   summaryFirstEntityOnly : Bool
 deriving Repr, DecidableEq
 
-/-- the code as it is. `oldDayUnmarked` (#13) and `syncDeletionLocalDayUnmarked` were fixed in /repo
-    (commits 8123d04, 1a9cbe6) and are off; their witnesses and replays stay as regression cases. -/
+/-- the code as it is. `oldDayUnmarked` (#13), `syncDeletionLocalDayUnmarked` and `lazyScan` were fixed in /repo
+    (commits 8123d04, 1a9cbe6, 079e672) and are off; their witnesses and replays stay as regression cases. -/
 def Defects.asImplemented : Defects :=
   { historySeedDropped := true, entityNotCompared := true, emptyDayRow := true, oldDayUnmarked := false,
     refDeletionUnmarked := true, syncDeletionLocalDayUnmarked := false, ingestIgnoresTombstones := true,
     rightDependsOnLocalAuthor := true, edgesOnlyForFetchedRows := true, syncDeletionKeepsEdges := true,
-    deletionBatchKeyedById := true, lazyScan := true,
+    deletionBatchKeyedById := true, lazyScan := false,
     syncDeletionRoomScoped := true, summaryFirstEntityOnly := true }
 
 def Defects.none : Defects :=
